@@ -155,7 +155,12 @@ def interfere(case):
             members = list(lat)[:12]
             for x in members:
                 list(x.upset()), list(x.downset()), x.atoms
-                if len(x.intent) <= 8:   # minimal()/attributes() enumerate the powerset of the intent
+                # minimal()/attributes() enumerate the powerset of the intent; its size is taken from the rows,
+                # not from the library (a wrong x.intent must not turn this helper into an hour of enumeration)
+                shared = (1 << len(p)) - 1
+                for name in x.extent:
+                    shared &= rs[o.index(name)] if name in o else 0
+                if len(p) <= 8 or (bin(shared).count('1') <= 8 and len(x.intent) <= 8):
                     x.minimal(), list(x.attributes())
                 ctx_.neighbors(x.extent)
                 if x.extent:
